@@ -234,12 +234,35 @@ def show(v, names=None):
 
 
 # ------------------------------------------------------------------ running the model
+MODEL_CHUNK_TIMEOUT = 240
+MODEL_CASE_TIMEOUT = 30
+MODEL_TIMEOUT = "MODEL-TIMEOUT"
+
+
 def run_model(cases, raw=False):
     """cases: list of (op:int, value). Returns list of parsed results (one per case)."""
     if not cases:
         return []
     inp = "\n".join("z" + _z(op) + " " + to_text(v) for op, v in cases) + "\n"
-    p = subprocess.run([DRIVER], input=inp, capture_output=True, text=True)
+    try:
+        p = subprocess.run([DRIVER], input=inp, capture_output=True, text=True, timeout=MODEL_CHUNK_TIMEOUT)
+    except subprocess.TimeoutExpired:
+        # the model's unreduced rational arithmetic can make a single case pathologically slow;
+        # isolate it: run the cases one by one and mark the slow ones (counted in the evidence as
+        # model_timeouts, never compared, never an alarm)
+        if len(cases) == 1:
+            return [MODEL_TIMEOUT]
+        out = []
+        for c in cases:
+            try:
+                q = subprocess.run([DRIVER], input="z" + _z(c[0]) + " " + to_text(c[1]) + "\n",
+                                   capture_output=True, text=True, timeout=MODEL_CASE_TIMEOUT)
+                if q.returncode != 0:
+                    raise RuntimeError("BROKEN-INFRASTRUCTURE: model driver failed: " + q.stderr[-2000:])
+                out.append(parse_text(q.stdout.split("\n")[0], raw=raw))
+            except subprocess.TimeoutExpired:
+                out.append(MODEL_TIMEOUT)
+        return out
     if p.returncode != 0:
         raise RuntimeError("BROKEN-INFRASTRUCTURE: model driver failed: " + p.stderr[-2000:])
     lines = p.stdout.split("\n")
@@ -270,6 +293,8 @@ def kernel_crosscheck(cases, tag):
     if not cases:
         return 0, 0, ""
     raw = run_model(cases, raw=True)
+    keep = [k for k, r in enumerate(raw) if not (isinstance(r, str) and r == MODEL_TIMEOUT)]
+    cases, raw = [cases[k] for k in keep], [raw[k] for k in keep]
     os.makedirs(WORK, exist_ok=True)
     name = f"kc_{tag}_{os.getpid()}"
     path = os.path.join(WORK, name + ".v")
@@ -282,7 +307,10 @@ def kernel_crosscheck(cases, tag):
         f.write("Definition bad := filter (fun c => match c with (op, v, r) => "
                 "negb (val_eqb (dispatch op v) r) end) cases.\n")
         f.write("Eval vm_compute in (length cases, length bad).\n")
-    p = subprocess.run(["coqc", "-Q", COQDIR, "VK", path], capture_output=True, text=True, timeout=900)
+    try:
+        p = subprocess.run(["coqc", "-Q", COQDIR, "VK", path], capture_output=True, text=True, timeout=900)
+    except subprocess.TimeoutExpired:
+        p = None
     for ext in (".v", ".vo", ".vok", ".vos", ".glob"):
         try:
             os.remove(os.path.join(WORK, name + ext))
@@ -292,6 +320,8 @@ def kernel_crosscheck(cases, tag):
         os.remove(os.path.join(WORK, "." + name + ".aux"))
     except OSError:
         pass
+    if p is None:
+        return 0, 0, "vm_compute cross-check timed out (nothing compared)"
     out = p.stdout.replace("\n", " ")
     import re
     m = re.search(r"=\s*\((\d+)%nat,\s*(\d+)%nat\)", out) or re.search(r"=\s*\((\d+),\s*(\d+)\)", out)
